@@ -172,6 +172,11 @@ def deep_docs(rng, quick):
         out.append(("deep", W + b"<wml>" + b"<p>" * n + b"<![CDATA[x]]><q/>" + b"</p>" * n + b"</wml>"))
         # a SyncML <Data> at the limit: the added CDATA node is one level deeper, elements inside it are refused
         out.append(("deep", b'<?xml version="1.0"?>' + SYNCML["1.2"] + b"<SyncML>" + b"<Add>" * (n - 2) + b"<Item><Data>text<![CDATA[c]]><x/></Data></Item>" + b"</Add>" * (n - 2) + b"</SyncML>"))
+    # nesting at the limit AFTER skipped embedded documents (a depth that is cached instead of recomputed drifts here)
+    emb = b"<Results><Item><Data><DevInf xmlns='syncml:devinf'><Man>m</Man></DevInf></Data></Item></Results>"
+    for k in (1, 2):
+        for n in (997, 998, 999, 1000):
+            out.append(("deep-after-embedded", b'<?xml version="1.0"?>' + SYNCML["1.2"] + b"<SyncML><SyncBody>" + emb * k + b"<Add>" * n + b"</Add>" * n + b"</SyncBody></SyncML>"))
     out.append(("wide", convcases.wide_xml(200 if quick else 20000)))
     out.append(("wide", convcases.attrs_xml(50 if quick else 3000)))
     out.append(("wide", W + b"<wml><card><p>" + b"a&amp;b&lt;&#x800;\n" * (50 if quick else 5000) + b"</p></card></wml>"))
